@@ -342,14 +342,14 @@ Definition to_elem (m : melem) : elem :=
   match m with MFib f => Fib f | MFus l => Fus l | MA _ _ => Amp dummy_ampn end.
 
 (* the choice of one band's amplifier among restrictions_edfa *)
-Definition band_selector (c : span_cfg) (lib : list amp) (redfa : list string) (prev : neigh) (b : bandinfo)
+Definition band_selector (c : span_cfg) (lib : list amp) (redfa : list string) (pc : Q) (prev : neigh) (b : bandinfo)
                          (a : ampn) : selector :=
   fun g0 pt =>
     let nf := fun x => nf_lookup (an_nfs a) (a_name x) in
     let* (s, red) := band_select lib redfa prev (c_maxl c) (bi_min b) (bi_max b) g0 pt (c_ext c) nf in
     let r := filter (covers_name lib (bi_min b) (bi_max b)) redfa in
-    Ok (s, red, select_crit (raman_allowed prev (c_maxl c)) g0 pt (c_ext c)
-                  (filter (fun x => negb (a_multi x) && (isnil r || smem (a_name x) r)) lib)).
+    Ok (s, red, Qmin pc (select_crit (raman_allowed prev (c_maxl c)) g0 pt (c_ext c)
+                           (filter (fun x => negb (a_multi x) && (isnil r || smem (a_name x) r)) lib))).
 
 (* the per band targets handed to preselect_multiband_amps *)
 Fixpoint mb_targets (c : span_cfg) (nl : Q) (tp : res Q) (bis : list bandinfo) (st : list (Q * Q))
@@ -364,12 +364,12 @@ Fixpoint mb_targets (c : span_cfg) (nl : Q) (tp : res Q) (bis : list bandinfo) (
   end.
 
 (* set_one_amplifier band after band *)
-Fixpoint mb_set (c : span_cfg) (lib : list amp) (nl : Q) (tp : res Q) (tp_arg : Q) (redfa : list string) (prev : neigh)
+Fixpoint mb_set (c : span_cfg) (lib : list amp) (nl : Q) (tp : res Q) (tp_arg : Q) (redfa : list string) (pc : Q) (prev : neigh)
                 (bis : list bandinfo) (st : list (Q * Q)) (amps : list ampn) : res (list (damp * Q * Q)) :=
   match bis, st, amps with
   | b :: bs, (pdp, pvoa) :: ss, a :: rest =>
-      let* r := set_one_gen c lib (bi_pref_total b) pdp pvoa nl tp tp_arg (band_selector c lib redfa prev b a) a in
-      let* rs := mb_set c lib nl tp tp_arg redfa prev bs ss rest in
+      let* r := set_one_gen c lib (bi_pref_total b) pdp pvoa nl tp tp_arg (band_selector c lib redfa pc prev b a) a in
+      let* rs := mb_set c lib nl tp tp_arg redfa pc prev bs ss rest in
       Ok (r :: rs)
   | [], [], [] => Ok []
   | _, _, _ => Err "ValueError:number of bands"
@@ -379,8 +379,10 @@ Definition mb_node (c : span_cfg) (lib : list amp) (groups : list mgroup) (nl : 
                    (prev next : neigh) (nd : anode) (bis : list bandinfo) (st : list (Q * Q)) (amps : list ampn)
   : res (list (damp * Q * Q)) :=
   let* bts := if String.eqb (n_variety nd) "" then mb_targets c nl tp bis st amps else Ok [] in
-  let* (_, redfa) := multi_redfa nd prev next lib groups (c_ext c) bts in
-  let* rs := mb_set c lib nl tp tp_arg redfa prev bis st amps in
+  let* (mr, redfa) := multi_redfa nd prev next lib groups (c_ext c) bts in
+  (* pc: smallest margin met by the preselection (for the tie rule of the harness) *)
+  let pc := if String.eqb (n_variety nd) "" then presel_crit lib groups (c_ext c) mr mr bts else 1 in
+  let* rs := mb_set c lib nl tp tp_arg redfa pc prev bis st amps in
   match common_groups groups (map (fun r => d_variety (fst (fst r))) rs) with
   | [] => Err "ConfigurationError:amps do not belong to the same amp type"
   | _ => Ok rs
@@ -412,3 +414,15 @@ Definition design_mb (c : span_cfg) (lib : list amp) (groups : list mgroup) (bis
 Definition proj_band (k : nat) (chain : list melem) : list elem :=
   map (fun m => match m with MA _ amps => Amp (nth k amps dummy_ampn) | _ => to_elem m end) chain.
 Definition proj_ds (k : nat) (dss : list (list damp)) : list damp := map (fun ds => nth k ds dummy_damp) dss.
+
+(* a multiband OMS as loaded, and its preparation (connectors, EOL, padding act on the passive elements only) *)
+Inductive rmelem := RMFib (f : rfiber) | RMFus (l : Q) | RMA (nd : anode) (amps : list ampn).
+Definition to_relem (m : rmelem) : relem :=
+  match m with RMFib f => RFib f | RMFus l => RFus l | RMA _ _ => RAmp dummy_ampn end.
+Definition mprep (c : span_cfg) (raw : list rmelem) : list melem :=
+  map (fun p => match fst p, snd p with
+                | RMA nd amps, _ => MA nd amps
+                | _, Fib f => MFib f
+                | _, Fus l => MFus l
+                | _, Amp _ => MFus 0
+                end) (combine raw (prep c (map to_relem raw))).
